@@ -284,8 +284,10 @@ func sectionD(r *hlib.Run) {
 	ds, errs := cdrv.BuildAll(r.Repo, fls...)
 	for fl, err := range errs {
 		if err != nil {
-			fmt.Fprintln(os.Stderr, "c05: cdrv build", fl, ":", err)
-			os.Exit(2)
+			// the working tree does not regenerate / compile std: nothing to compare, and not silent
+			r.Fail("std-does-not-build:"+string(fl), "the standard library regenerated from the working tree does not build ("+string(fl)+")",
+				firstN(err.Error(), 4000))
+			return
 		}
 	}
 	rng := r.Rand.Fork()
